@@ -242,7 +242,7 @@ struct JSON {
 
                     ++offset;
 
-                    while ((offset < length) && (content[offset] == *true_string)) {
+                    while ((offset < length) && (*true_string != Char_T{0}) && (content[offset] == *true_string)) {
                         ++true_string;
                         ++offset;
                     }
@@ -259,7 +259,7 @@ struct JSON {
 
                     ++offset;
 
-                    while ((offset < length) && (content[offset] == *false_string)) {
+                    while ((offset < length) && (*false_string != Char_T{0}) && (content[offset] == *false_string)) {
                         ++false_string;
                         ++offset;
                     }
@@ -276,7 +276,7 @@ struct JSON {
 
                     ++offset;
 
-                    while ((offset < length) && (content[offset] == *null_string)) {
+                    while ((offset < length) && (*null_string != Char_T{0}) && (content[offset] == *null_string)) {
                         ++null_string;
                         ++offset;
                     }
